@@ -38,6 +38,187 @@ def _strip_doc(body):
     return body
 
 
+# ----------------------------------------------------------------------------- normalisation
+# Shapes are compared modulo behaviour-preserving rewrites: alpha-renaming of parameters / locals,
+# single-assignment local aliases of `self.…` attribute chains (inlined when the attribute is not
+# re-assigned in the function), `if c: x = a else: x = b` vs `x = a if c else b`, a call of a
+# private straight-line helper of the same class in statement position (inlined one level deep).
+# What is compared afterwards is still exact: which call, which argument, which order, under
+# which guard / lock / try.  Anything else fails closed.
+_BLOCKS = ("body", "orelse", "finalbody")
+
+
+def _map_blocks(stmts, f):
+    """apply f (list -> list) to every statement list, innermost first"""
+    out = []
+    for st in stmts:
+        for fld in _BLOCKS:
+            if isinstance(getattr(st, fld, None), list) and getattr(st, fld) and isinstance(getattr(st, fld)[0], ast.stmt):
+                setattr(st, fld, _map_blocks(getattr(st, fld), f))
+        if isinstance(st, ast.Try):
+            for h in st.handlers:
+                h.body = _map_blocks(h.body, f)
+        out.append(st)
+    return f(out)
+
+
+def _stores(node):
+    """names bound in `node`, in source order (assignment / for / with-as / except-as / comprehension targets)"""
+    out = []
+
+    def visit(n):
+        if isinstance(n, ast.Name) and isinstance(n.ctx, ast.Store):
+            out.append(n.id)
+        if isinstance(n, ast.ExceptHandler) and n.name:
+            out.append(n.name)
+        if isinstance(n, (ast.FunctionDef, ast.AsyncFunctionDef, ast.Lambda, ast.ClassDef)) and n is not node:
+            return
+        for c in ast.iter_child_nodes(n):
+            visit(c)
+
+    visit(node)
+    return out
+
+
+class _Rename(ast.NodeTransformer):
+    def __init__(self, mapping):
+        self.mapping = mapping
+
+    def visit_Name(self, n):
+        v = self.mapping.get(n.id)
+        if v is None:
+            return n
+        if isinstance(v, str):
+            return ast.copy_location(ast.Name(id=v, ctx=n.ctx), n)
+        return ast.copy_location(__import__("copy").deepcopy(v), n) if isinstance(n.ctx, ast.Load) else n
+
+    def visit_ExceptHandler(self, n):
+        if n.name and isinstance(self.mapping.get(n.name), str):
+            n.name = self.mapping[n.name]
+        self.generic_visit(n)
+        return n
+
+
+def _pure_self_chain(e):
+    while isinstance(e, ast.Attribute):
+        e = e.value
+    return isinstance(e, ast.Name) and e.id == "self"
+
+
+KEEP = ("_close_file", "_create_file", "_create_dirs", "_create_path", "_reopen_if_needed", "_terminate_file",
+        "_protected_lock", "_queued_writer")
+
+
+def canon(cls, fn, keep=KEEP):
+    """canonical statement list of method `fn` of class node `cls` (see above); parameters become
+    p0, p1, … (keyword-only ones keep their API names), locals v0, v1, … in order of first binding"""
+    import copy
+    fn = copy.deepcopy(fn)
+    methods = {m.name: m for m in (cls.body if cls is not None else []) if isinstance(m, ast.FunctionDef)}
+
+    def inline_helpers(stmts):
+        out = []
+        for st in stmts:
+            h = None
+            if isinstance(st, ast.Expr) and isinstance(st.value, ast.Call) and not st.value.args and not st.value.keywords \
+                    and isinstance(st.value.func, ast.Attribute) and isinstance(st.value.func.value, ast.Name) \
+                    and st.value.func.value.id == "self" and st.value.func.attr.startswith("_"):
+                h = methods.get(st.value.func.attr)
+            if h is not None and h is not fn and [a.arg for a in h.args.args] == ["self"] and not h.args.kwonlyargs \
+                    and not h.args.vararg and not h.args.kwarg and not h.decorator_list \
+                    and all(isinstance(x, (ast.Assign, ast.Expr, ast.AugAssign)) for x in _strip_doc(h.body)) \
+                    and h.name not in keep:
+                hb = copy.deepcopy(_strip_doc(h.body))
+                ren = {n: "_%s_%s" % (h.name, n) for n in set(sum((_stores(x) for x in hb), []))}
+                out += [_Rename(ren).visit(x) for x in hb]
+            else:
+                out.append(st)
+        return out
+
+    def ifelse(stmts):
+        out = []
+        for st in stmts:
+            if isinstance(st, ast.If) and len(st.body) == 1 and len(st.orelse) == 1 \
+                    and all(isinstance(x, ast.Assign) and len(x.targets) == 1 and isinstance(x.targets[0], ast.Name)
+                            for x in (st.body[0], st.orelse[0])) \
+                    and st.body[0].targets[0].id == st.orelse[0].targets[0].id:
+                out.append(ast.copy_location(ast.Assign(
+                    targets=[st.body[0].targets[0]],
+                    value=ast.IfExp(test=st.test, body=st.body[0].value, orelse=st.orelse[0].value)), st))
+            else:
+                out.append(st)
+        return out
+
+    body = _map_blocks(_strip_doc(fn.body), inline_helpers)
+    body = _map_blocks(body, ifelse)
+    mod = ast.Module(body=body, type_ignores=[])
+    # single-assignment aliases of self.… chains whose attribute is never re-bound in this function
+    stores = _stores(mod)
+    rebound = set()
+    for n in ast.walk(mod):
+        if isinstance(n, (ast.Assign, ast.AugAssign, ast.AnnAssign, ast.Delete)):
+            for t in (n.targets if isinstance(n, (ast.Assign, ast.Delete)) else [n.target]):
+                if isinstance(t, ast.Attribute):
+                    rebound.add(_u(t))
+    alias = {}
+    for st in body:
+        if isinstance(st, ast.Assign) and len(st.targets) == 1 and isinstance(st.targets[0], ast.Name) \
+                and stores.count(st.targets[0].id) == 1 and isinstance(st.value, ast.Attribute) \
+                and _pure_self_chain(st.value) and not any(r == _u(st.value) or _u(st.value).startswith(r + ".")
+                                                            for r in rebound):
+            alias[st.targets[0].id] = st.value
+    params = [a.arg for a in fn.args.args if a.arg != "self"]
+    body = [st for st in body if not (isinstance(st, ast.Assign) and isinstance(st.targets[0], ast.Name)
+                                      and st.targets[0].id in alias and st.value is alias[st.targets[0].id])]
+    mod = ast.Module(body=body, type_ignores=[])
+    _Rename(alias).visit(mod)
+    mapping = {n: "p%d" % i for i, n in enumerate(params)}
+    keep = {a.arg for a in fn.args.kwonlyargs} | {"self"}
+    k = 0
+    for n in _stores(mod):
+        if n not in mapping and n not in keep:
+            mapping[n] = "v%d" % k
+            k += 1
+    _Rename(mapping).visit(mod)
+    ast.fix_missing_locations(mod)
+    return mod.body, mapping
+
+
+class Match:
+    """pattern matching on canonical source text: `$x` stands for one canonical parameter / local
+    (p0, v3, …), bound consistently across all patterns matched through the same object"""
+
+    def __init__(self):
+        self.b = {}
+
+    def __call__(self, node_or_src, pat):
+        import re
+        src = node_or_src if isinstance(node_or_src, str) else _u(node_or_src)
+        rx, local = "", set()
+        for part in re.split(r"(\$\w+)", pat):
+            if part.startswith("$"):
+                n = part[1:]
+                if n in self.b:
+                    rx += re.escape(self.b[n])
+                elif n in local:
+                    rx += "(?P=%s)" % n
+                else:
+                    local.add(n)
+                    rx += "(?P<%s>[pv]\\d+|_\\w+)" % n
+            else:
+                rx += re.escape(part)
+        m = re.fullmatch(rx, src)
+        if m:
+            self.b.update(m.groupdict())
+            return True
+        return False
+
+
+def _single_call_if(M, stmt, test_pat, call_pat):
+    return (isinstance(stmt, ast.If) and not stmt.orelse and len(stmt.body) == 1 and isinstance(stmt.body[0], ast.Expr)
+            and M(stmt.test, test_pat) and M(stmt.body[0].value, call_pat))
+
+
 def _is_single_call_if(stmt, test_src, call_src):
     return (isinstance(stmt, ast.If) and not stmt.orelse and _u(stmt.test) == test_src
             and len(stmt.body) == 1 and isinstance(stmt.body[0], ast.Expr) and _u(stmt.body[0].value) == call_src)
@@ -87,56 +268,58 @@ def _file_sink(body):
     if pairs.get("mode") != "mode" or pairs.get("buffering") != "buffering" \
             or pairs.get("encoding") not in ("self.encoding", "encoding"):
         raise Unsupported("self._kwargs no longer forwards mode/buffering/encoding: %r" % (pairs,))
-    cf = find_func(tree, "_create_file", cls="FileSink")
-    first = _strip_doc(cf.body)[0]
-    if not (isinstance(first, ast.Assign) and _u(first.targets[0]) == "self._file"
-            and _u(first.value) == "open(path, **self._kwargs)"):
+    cls = find_class(tree, "FileSink")
+    cf, _m = canon(cls, find_func(tree, "_create_file", cls="FileSink"))
+    M = Match()
+    if not (cf and isinstance(cf[0], ast.Assign) and M(cf[0], "self._file = open($path, **self._kwargs)")
+            and M.b["path"] == "p0"):
         raise Unsupported("_create_file no longer starts with self._file = open(path, **self._kwargs)")
 
     # FileSink.write as a list of operations
-    w = find_func(tree, "write", cls="FileSink")
+    w, _m = canon(cls, find_func(tree, "write", cls="FileSink"))
+    M = Match()
     ops = []
-    for st in _strip_doc(w.body):
-        src = _u(st)
+    for st in w:
         if isinstance(st, ast.If) and _u(st.test) == "self._file is None" and not st.orelse \
-                and _u(st.body[-1]) == "self._create_file(path)":
+                and M(st.body[-1], "self._create_file($newpath)"):
             ops.append(".openIfNone")
-        elif _is_single_call_if(st, "self._watch", "self._reopen_if_needed()"):
+        elif _single_call_if(M, st, "self._watch", "self._reopen_if_needed()"):
             ops.append(".reopenIfWatched")
-        elif _is_single_call_if(st, "self._rotation_function is not None and self._rotation_function(message, self._file)",
-                                "self._terminate_file(is_rotating=True)"):
+        elif _single_call_if(M, st, "self._rotation_function is not None and self._rotation_function($msg, self._file)",
+                             "self._terminate_file(is_rotating=True)") and M.b["msg"] == "p0":
             ops.append(".rotateIfDue")
-        elif src == "self._file.write(message)":
+        elif M(st, "self._file.write($msg)") and M.b["msg"] == "p0":
             ops.append(".fileWrite")
         else:
-            raise Unsupported("FileSink.write: unexpected statement: " + src.splitlines()[0])
+            raise Unsupported("FileSink.write: unexpected statement: " + _u(st).splitlines()[0])
     body.append("/-- the statements of `FileSink.write` -/")
     body.append("def fileWriteOps : List WriteOp := [%s]" % ", ".join(ops))
 
-    # FileSink._close_file
-    c = find_func(tree, "_close_file", cls="FileSink")
+    # FileSink._close_file: flush / close of the file object that was open on entry (directly, or through a
+    # local bound to it before `self._file` is reset - since e6154e8)
+    c, _m = canon(cls, find_func(tree, "_close_file", cls="FileSink"))
+    M = Match()
     ops = []
-    bound = False  # since e6154e8: `file = self._file` first, then file.flush(), resets, file.close()
-    for st in _strip_doc(c.body):
-        src = _u(st)
-        if src == "file = self._file" and not ops:
-            bound = True
-        elif src == "self._file.flush()" or (bound and src == "file.flush()"):
+    reset = False
+    for st in c:
+        if M(st, "$f = self._file") and not ops and not reset:
+            pass
+        elif (M(st, "self._file.flush()") and not reset) or ("f" in M.b and M(st, "$f.flush()")):
             ops.append(".flush")
-        elif src == "self._file.close()" or (bound and src == "file.close()"):
+        elif (M(st, "self._file.close()") and not reset) or ("f" in M.b and M(st, "$f.close()")):
             ops.append(".close")
         elif isinstance(st, ast.Assign) and len(st.targets) == 1 and _u(st.targets[0]).startswith("self._file") \
                 and isinstance(st.value, (ast.Constant, ast.UnaryOp)):
-            pass  # attribute resets
+            reset = reset or _u(st.targets[0]) == "self._file"   # attribute resets
         else:
-            raise Unsupported("FileSink._close_file: unexpected statement: " + src.splitlines()[0])
+            raise Unsupported("FileSink._close_file: unexpected statement: " + _u(st).splitlines()[0])
     body.append("/-- the statements of `FileSink._close_file` (attribute resets omitted) -/")
     body.append("def closeFileOps : List CloseOp := [%s]" % ", ".join(ops))
 
     # FileSink.stop : [if self._watch: reopen] ; self._terminate_file(is_rotating=False)
-    s = find_func(tree, "stop", cls="FileSink")
-    sts = _strip_doc(s.body)
-    if sts and _is_single_call_if(sts[0], "self._watch", "self._reopen_if_needed()"):
+    sts, _m = canon(cls, find_func(tree, "stop", cls="FileSink"))
+    M = Match()
+    if sts and _single_call_if(M, sts[0], "self._watch", "self._reopen_if_needed()"):
         sts = sts[1:]
     term = None
     if len(sts) == 1 and isinstance(sts[0], ast.Expr) and isinstance(sts[0].value, ast.Call) \
@@ -156,17 +339,18 @@ def _file_sink(body):
     body.append("def fileStopTerminate : Option Bool := some %s" % ("true" if term else "false"))
 
     # _terminate_file: closes the open file first; the end-of-life condition
-    t = find_func(tree, "_terminate_file", cls="FileSink")
-    sts = _strip_doc(t.body)
+    sts, _m = canon(cls, find_func(tree, "_terminate_file", cls="FileSink"))
+    M = Match()
     closes_first = False
     for st in sts[:3]:
-        if _is_single_call_if(st, "self._file is not None", "self._close_file()"):
+        if _single_call_if(M, st, "self._file is not None", "self._close_file()"):
             closes_first = True
     body.append("/-- `_terminate_file` begins with `if self._file is not None: self._close_file()` -/")
     body.append("def terminateClosesOpenFile : Bool := %s" % ("true" if closes_first else "false"))
     eol = None
     for st in sts:
-        if isinstance(st, ast.If) and any("self._compression_function(old_path)" in _u(x) for x in st.body):
+        if isinstance(st, ast.If) and any(isinstance(y, ast.Expr) and M(y, "self._compression_function($old)")
+                                          for x in st.body for y in ast.walk(x)):
             eol = st
     if eol is None:
         raise Unsupported("_terminate_file: the compression/retention block was not found")
@@ -175,8 +359,8 @@ def _file_sink(body):
     body.append("def endOfLife (isRotating hasRotation : Bool) : Bool := %s" % _bool_kernel(eol.test, names))
     comp = ret = None
     for st in eol.body:
-        if isinstance(st, ast.If) and "self._compression_function(old_path)" in _u(st):
-            comp = _bool_kernel(st.test, {"self._compression_function": "hasCompression", "old_path": "hasOldPath"})
+        if isinstance(st, ast.If) and any(isinstance(y, ast.Expr) and M(y, "self._compression_function($old)") for y in st.body):
+            comp = _bool_kernel(st.test, {"self._compression_function": "hasCompression", M.b["old"]: "hasOldPath"})
         if isinstance(st, ast.If) and "self._retention_function(" in _u(st):
             ret = _bool_kernel(st.test, {"self._retention_function": "hasRetention"})
     if comp is None or ret is None:
@@ -187,25 +371,53 @@ def _file_sink(body):
 
 def _stream_sink(body):
     tree, _ = parse_module("_simple_sinks.py")
-    init = find_func(tree, "__init__", cls="StreamSink")
-    fl = None
-    for st in init.body:
-        if isinstance(st, ast.Assign) and _u(st.targets[0]) == "self._flushable":
-            fl = st.value
-    if fl is None:
-        raise Unsupported("StreamSink.__init__: self._flushable not assigned")
+    cls = find_class(tree, "StreamSink")
+    init, _m = canon(cls, find_func(tree, "__init__", cls="StreamSink"))
+    # the attribute holding the stream (`self.X = <the constructor's parameter>`), whatever it is called
+    stream_attr = None
+    attrs = {}
+    for st in init:
+        if isinstance(st, ast.Assign) and len(st.targets) == 1 and isinstance(st.targets[0], ast.Attribute) \
+                and _u(st.targets[0].value) == "self":
+            attrs[st.targets[0].attr] = st.value
+            if _u(st.value) == "p0" and stream_attr is None:
+                stream_attr = st.targets[0].attr
+    if stream_attr is None:
+        raise Unsupported("StreamSink.__init__: the stream is not stored in an attribute")
+    S = "self." + stream_attr
+    w, _m = canon(cls, find_func(tree, "write", cls="StreamSink"))
+    M = Match()
+    ops = []
+    guard = None
+    for st in w:
+        if M(st, S + ".write($msg)") and M.b["msg"] == "p0":
+            ops.append(".write")
+        elif isinstance(st, ast.If) and not st.orelse and len(st.body) == 1 and _u(st.body[0]) == S + ".flush()" \
+                and isinstance(st.test, ast.Attribute) and _u(st.test.value) == "self" and st.test.attr in attrs \
+                and guard in (None, st.test.attr):
+            guard = st.test.attr          # the private flag deciding the flush, whatever it is called
+            ops.append(".flushIfFlushable")
+        elif _u(st) == S + ".flush()":
+            ops.append(".flush")
+        else:
+            raise Unsupported("StreamSink.write: unexpected statement: " + _u(st).splitlines()[0])
+    if guard is None:
+        guard = "_flushable" if "_flushable" in attrs else None
+    if guard is None:
+        raise Unsupported("StreamSink: no attribute decides whether the stream is flushed")
+    fl = attrs[guard]
 
     def kern(node):
-        """the decision as a Bool kernel over what can be observed of a stream: has a callable flush,
-        reports line_buffering, reports write_through, is a tty"""
+        """the decision as a Bool kernel over what can be observed of a stream (p0 = the constructor's
+        parameter): has a callable flush, reports line_buffering, reports write_through"""
         src = _u(node).replace('"', "'")
         atoms = {
-            "callable(getattr(stream, 'flush', None))": "hasFlush",
-            "hasattr(stream, 'flush')": "hasFlush",
-            "getattr(stream, 'line_buffering', False)": "lineBuffering",
-            "stream.line_buffering": "lineBuffering",
-            "getattr(stream, 'write_through', False)": "writeThrough",
-            "stream.write_through": "writeThrough",
+            "callable(getattr(p0, 'flush', None))": "hasFlush",
+            "hasattr(p0, 'flush')": "hasFlush",
+            "getattr(p0, 'line_buffering', False)": "lineBuffering",
+            "p0.line_buffering": "lineBuffering",
+            "getattr(p0, 'write_through', False)": "writeThrough",
+            "p0.write_through": "writeThrough",
         }
         if src in atoms:
             return atoms[src]
@@ -216,48 +428,40 @@ def _stream_sink(body):
             return "(" + sym.join(kern(v) for v in node.values) + ")"
         if isinstance(node, ast.UnaryOp) and isinstance(node.op, ast.Not):
             return "(!" + kern(node.operand) + ")"
-        raise Unsupported("StreamSink._flushable: condition outside the subset: " + src)
+        raise Unsupported("StreamSink flush decision: condition outside the subset: " + src)
 
-    body.append("/-- `self._flushable = %s` as a function of what the stream exposes -/" % _u(fl).replace("-/", "- /"))
+    body.append("/-- `self.%s = %s` (p0 = the stream) as a function of what the stream exposes -/"
+                % (guard, _u(fl).replace("-/", "- /")))
     body.append("def flushableOf (hasFlush lineBuffering writeThrough : Bool) : Bool := %s" % kern(fl))
-    w = find_func(tree, "write", cls="StreamSink")
-    ops = []
-    for st in _strip_doc(w.body):
-        src = _u(st)
-        if src == "self._stream.write(message)":
-            ops.append(".write")
-        elif _is_single_call_if(st, "self._flushable", "self._stream.flush()"):
-            ops.append(".flushIfFlushable")
-        elif src == "self._stream.flush()":
-            ops.append(".flush")
-        else:
-            raise Unsupported("StreamSink.write: unexpected statement: " + src.splitlines()[0])
     body.append("/-- the statements of `StreamSink.write` -/")
     body.append("def streamWriteOps : List StreamOp := [%s]" % ", ".join(ops))
 
 
 def _handler(body):
     tree, _ = parse_module("_handler.py")
-    s = find_func(tree, "stop", cls="Handler")
-    sts = _strip_doc(s.body)
+    cls = find_class(tree, "Handler")
+    sts, _m = canon(cls, find_func(tree, "stop", cls="Handler"))
     if not (len(sts) == 1 and isinstance(sts[0], ast.With) and len(sts[0].items) == 1
             and _u(sts[0].items[0].context_expr) == "self._protected_lock()"):
         raise Unsupported("Handler.stop is not a single `with self._protected_lock():` block")
     ops = []
+    M = Match()
 
     def one(st, enq):
         src = _u(st)
         tag = "true" if enq else "false"
         if src == "self._stopped = True":
             ops.append("(%s, .setStopped)" % tag)
-        elif isinstance(st, ast.If) and _u(st.test) == "self._owner_process_pid != os.getpid()" \
-                and len(st.body) == 1 and isinstance(st.body[0], ast.Return) and not st.orelse:
+        elif isinstance(st, ast.If) and _u(st.test) in ("self._owner_process_pid != os.getpid()",
+                                                         "os.getpid() != self._owner_process_pid",
+                                                         "self._owner_process_pid != getpid()") \
+                and len(st.body) == 1 and isinstance(st.body[0], ast.Return) and st.body[0].value is None and not st.orelse:
             ops.append("(%s, .returnIfNotOwner)" % tag)
         elif src == "self._queue.put(None)":
             ops.append("(%s, .putSentinel)" % tag)
         elif src == "self._thread.join()":
             ops.append("(%s, .joinWorker)" % tag)
-        elif src == "self._queue.close()" or _is_single_call_if(st, "hasattr(self._queue, 'close')", "self._queue.close()"):
+        elif src == "self._queue.close()" or _single_call_if(M, st, "hasattr(self._queue, 'close')", "self._queue.close()"):
             ops.append("(%s, .closeQueue)" % tag)
         elif src == "self._sink.stop()":
             ops.append("(%s, .sinkStop)" % tag)
@@ -273,39 +477,38 @@ def _handler(body):
     body.append("def handlerStopOps : List (Bool × StopOp) := [%s]" % ", ".join(ops))
 
     # the worker loop of an enqueued handler: which queue items end it, which are written
-    qw = find_func(tree, "_queued_writer", cls="Handler")
-    loop = [st for st in qw.body if isinstance(st, ast.While)]
+    qw, _m = canon(cls, find_func(tree, "_queued_writer", cls="Handler"))
+    loop = [st for st in qw if isinstance(st, ast.While)]
     if len(loop) != 1 or _u(loop[0].test) != "True" or loop[0].orelse:
         raise Unsupported("_queued_writer: expected a single `while True:` loop")
-    for st in qw.body:
+    for st in qw:
         if st is not loop[0] and not isinstance(st, ast.Assign):
             raise Unsupported("_queued_writer: unexpected statement outside the loop: " + _u(st).splitlines()[0])
     wops = []
+    M = Match()
     for st in loop[0].body:
-        src = _u(st)
-        if isinstance(st, ast.Try) and len(st.body) == 1 and _u(st.body[0]) == "message = queue.get()" \
+        if isinstance(st, ast.Try) and len(st.body) == 1 and M(st.body[0], "$item = self._queue.get()") \
                 and len(st.handlers) == 1 and isinstance(st.handlers[0].body[-1], ast.Continue):
             wops.append(".get")
-        elif src == "message = queue.get()":
+        elif M(st, "$item = self._queue.get()"):
             wops.append(".get")
         elif isinstance(st, ast.If) and not st.orelse and len(st.body) == 1 and isinstance(st.body[0], ast.Break):
-            t = _u(st.test)
-            if t == "message is None":
+            if M(st.test, "$item is None"):
                 wops.append(".breakIfNone")
-            elif t in ("not message", "message is None or not message", "not message or message is None"):
+            elif M(st.test, "not $item") or M(st.test, "$item is None or not $item") or M(st.test, "not $item or $item is None"):
                 wops.append(".breakIfFalsy")
             else:
-                raise Unsupported("_queued_writer: unknown end-of-loop test: " + t)
-        elif isinstance(st, ast.If) and not st.orelse and _u(st.test) == "message is True" \
+                raise Unsupported("_queued_writer: unknown end-of-loop test: " + _u(st.test))
+        elif isinstance(st, ast.If) and not st.orelse and M(st.test, "$item is True") \
                 and isinstance(st.body[-1], ast.Continue) and _u(st.body[0]) == "self._confirmation_event.set()":
             wops.append(".confirmIfTrue")
         elif isinstance(st, ast.With) and len(st.body) == 1 and isinstance(st.body[0], ast.Try) \
-                and len(st.body[0].body) == 1 and _u(st.body[0].body[0]) == "self._sink.write(message)":
+                and len(st.body[0].body) == 1 and M(st.body[0].body[0], "self._sink.write($item)"):
             wops.append(".write")
-        elif src == "self._sink.write(message)":
+        elif M(st, "self._sink.write($item)"):
             wops.append(".write")
         else:
-            raise Unsupported("_queued_writer: unexpected statement in the loop: " + src.splitlines()[0])
+            raise Unsupported("_queued_writer: unexpected statement in the loop: " + _u(st).splitlines()[0])
     body.append("/-- the loop body of `Handler._queued_writer` (the worker thread of an enqueued handler) -/")
     body.append("def workerOps : List WorkerOp := [%s]" % ", ".join(wops))
 
@@ -330,20 +533,33 @@ def _logger(body):
     add = find_func(tree, "add", cls="Logger")
     term = {}
 
-    def scan(stmts):
-        kind, t = None, None
-        for st in stmts:
-            if isinstance(st, ast.Assign) and _u(st.targets[0]) == "wrapped_sink" and isinstance(st.value, ast.Call):
-                kind = _u(st.value.func)
-            if isinstance(st, ast.Assign) and _u(st.targets[0]) == "terminator":
-                t = st.value
-        if kind is not None and t is not None:
-            term[kind] = _const(t, str, "terminator of " + kind)
+    # the terminator in force in the branch that builds each kind of sink: assigned in the branch itself, or
+    # the last assignment at function level before the if/elif chain (a default the branch does not override)
+    def branches(node):
+        yield node.body
+        if len(node.orelse) == 1 and isinstance(node.orelse[0], ast.If):
+            yield from branches(node.orelse[0])
+        elif node.orelse:
+            yield node.orelse
 
-    for node in ast.walk(add):
-        if isinstance(node, ast.If):
-            scan(node.body)
-            scan(node.orelse)
+    default = None
+    for st in _strip_doc(add.body):
+        if isinstance(st, ast.Assign) and any(_u(t) == "terminator" for t in st.targets):
+            default = st.value
+        elif isinstance(st, ast.If):
+            for br in branches(st):
+                kind, t = None, default
+                for x in br:
+                    if isinstance(x, ast.Assign) and _u(x.targets[0]) == "wrapped_sink" and isinstance(x.value, ast.Call):
+                        kind = _u(x.value.func)
+                    if isinstance(x, ast.Assign) and any(_u(tt) == "terminator" for tt in x.targets):
+                        t = x.value
+                    elif not isinstance(x, ast.Assign) and "terminator" in _stores(x):
+                        t = None      # assigned under a condition inside the branch: not understood
+                if kind is not None and kind not in term and t is not None:
+                    term[kind] = _const(t, str, "terminator of " + kind)
+        elif "terminator" in _stores(st):
+            default = None
     for k in ("FileSink", "StreamSink"):
         if k not in term:
             raise Unsupported("Logger.add: terminator of the %s branch not found" % k)
@@ -377,36 +593,41 @@ def _logger(body):
     body.append("/-- operands of `%s` -/" % _u(comp))
     body.append("def templateParts : List FmtPart := [%s]" % ", ".join(parts))
 
-    # Logger.remove: `handler_ids = list(self._core.handlers)` when no id is given; each id: … handler.stop()
-    rm = find_func(tree, "remove", cls="Logger")
+    # Logger.remove: every registered id when no id is given; each id: … handler.stop()
+    rm, _m = canon(find_class(tree, "Logger"), find_func(tree, "remove", cls="Logger"))
+    M = Match()
     all_ids = False
     loop = None
-    for node in ast.walk(rm):
-        if isinstance(node, ast.If) and _u(node.test) == "handler_id is None" and len(node.body) == 1 \
-                and _u(node.body[0]) in ("handler_ids = list(self._core.handlers)",
-                                         "handler_ids = list(self._core.handlers.keys())"):
+    mod = ast.Module(body=rm, type_ignores=[])
+    for node in ast.walk(mod):
+        if isinstance(node, ast.If) and M(node.test, "$hid is None") and M.b["hid"] == "p0" and len(node.body) == 1 \
+                and (M(node.body[0], "$ids = list(self._core.handlers)") or M(node.body[0], "$ids = list(self._core.handlers.keys())")):
             all_ids = True
-        if isinstance(node, ast.For) and _u(node.iter) == "handler_ids":
+        if isinstance(node, ast.Assign) and isinstance(node.value, ast.IfExp) and M(node.value.test, "$hid is None") \
+                and M.b["hid"] == "p0" and M(node.targets[0], "$ids") \
+                and _u(node.value.body) in ("list(self._core.handlers)", "list(self._core.handlers.keys())"):
+            all_ids = True
+    for node in ast.walk(mod):
+        if isinstance(node, ast.For) and "ids" in M.b and M(node.iter, "$ids"):
             loop = node
     if loop is None:
-        raise Unsupported("Logger.remove: loop over handler_ids not found")
+        raise Unsupported("Logger.remove: loop over the handler ids not found")
+    M.b["lv"] = _u(loop.target)
     ops = []
-    popped = published = False
+    popped = False
     for st in loop.body:
-        src = _u(st)
-        if src == "handler = handlers.pop(handler_id)":
+        if M(st, "$h = $hs.pop(" + M.b["lv"] + ")"):
             popped = True
-        elif src == "self._core.handlers = handlers":
-            published = True
+        elif "hs" in M.b and M(st, "self._core.handlers = $hs"):
             ops.append(".unregister")
-        elif src == "handler.stop()":
+        elif "h" in M.b and M(st, "$h.stop()"):
             if not popped:
                 raise Unsupported("Logger.remove: handler.stop() before the handler is looked up")
             ops.append(".handlerStop")
         elif isinstance(st, ast.Assign):
             pass  # handlers copy, levelnos, min_level
         else:
-            raise Unsupported("Logger.remove: unexpected statement in the loop: " + src.splitlines()[0])
+            raise Unsupported("Logger.remove: unexpected statement in the loop: " + _u(st).splitlines()[0])
     body.append("/-- `remove(None)` iterates over every registered handler id -/")
     body.append("def removeNoneTakesAll : Bool := %s" % ("true" if all_ids else "false"))
     body.append("/-- loop body of `Logger.remove` (per handler) -/")
@@ -418,15 +639,21 @@ def _init(body):
     alias = None
     logger_assigned = False
     hooks = []
+    reg = None   # `from atexit import register [as r]`
     for st in tree.body:
         if isinstance(st, ast.Import):
             for a in st.names:
                 if a.name == "atexit":
                     alias = a.asname or "atexit"
+        if isinstance(st, ast.ImportFrom) and st.module == "atexit" and st.level == 0:
+            for a in st.names:
+                if a.name == "register":
+                    reg = a.asname or "register"
         if isinstance(st, ast.Assign) and _u(st.targets[0]) == "logger":
             logger_assigned = True
-        if isinstance(st, ast.Expr) and isinstance(st.value, ast.Call) and alias is not None \
-                and _u(st.value.func) == alias + ".register":
+        if isinstance(st, ast.Expr) and isinstance(st.value, ast.Call) \
+                and ((alias is not None and _u(st.value.func) == alias + ".register")
+                     or (reg is not None and _u(st.value.func) == reg)):
             c = st.value
             if logger_assigned and len(c.args) == 1 and not c.keywords and _u(c.args[0]) == "logger.remove":
                 hooks.append(".loggerRemove")
